@@ -1,6 +1,7 @@
 package fam
 
 import (
+	"regexp"
 	"encoding/hex"
 	"fmt"
 	"math/big"
@@ -244,11 +245,11 @@ var profiles = map[string]profile{
 		pFault: 0, pLie: 0, pWrongSign: 50, pPass: 0, pHuge: 0, pBadDenom: 0, routes: cleanRoutes, msgKinds: allMsgKinds, mask: []int{0, 1, 4}, pPlanned: 75},
 	// C11: deposits onto the orbiter account crossed with transfers; each packet also runs on a twin branch with an emptied account
 	"C11": {name: "C11", minOps: 2, maxOps: 7, wRecv: 55, wMsg: 5, wDeposit: 40, wQuery: 0, pOrbiter: 95, pFee: 50, pBadPayload: 10,
-		pFault: 0, pLie: 0, pWrongSign: 0, pPass: 30, pHuge: 5, pBadDenom: 3, routes: cleanRoutes, msgKinds: []string{"UpdateParams"}, mask: []int{0, 1, 2, 4},
+		pFault: 0, pLie: 0, pWrongSign: 0, pPass: 30, pHuge: 12, pBadDenom: 3, routes: cleanRoutes, msgKinds: []string{"UpdateParams"}, mask: []int{0, 1, 2, 4},
 		pPlanned: 80, pInitLimit: 50},
 	// C12: long mixed histories
 	"C12": {name: "C12", minOps: 6, maxOps: 24, wRecv: 80, wMsg: 10, wDeposit: 5, wQuery: 5, pOrbiter: 90, pFee: 50, pBadPayload: 12,
-		pFault: 5, pLie: 0, pWrongSign: 10, pPass: 5, pHuge: 4, pBadDenom: 5, routes: cleanRoutes, msgKinds: allMsgKinds, mask: []int{0, 4}, pPlanned: 50, pInitLimit: 30},
+		pFault: 5, pLie: 0, pWrongSign: 10, pPass: 5, pHuge: 4, pBadDenom: 5, routes: cleanRoutes, msgKinds: allMsgKinds, mask: []int{0, 4}, pPlanned: 50, pInitLimit: 30, pSwap: 25},
 	// C13: mostly successful transfers over all routes, to populate the ledgers
 	"C13": {name: "C13", minOps: 1, maxOps: 2, wRecv: 100, pOrbiter: 100, pFee: 30, pBadPayload: 2, routes: cleanRoutes, msgKinds: allMsgKinds, pPlanned: 0},
 	// C19: everything at once, replayed: malformed and mutated memos (error text), several fee recipients (event order), messages, queries
@@ -800,6 +801,7 @@ func collectStrings(pl *core.Payload, ics *world.ICS20) (b []string, i []string)
 }
 
 type worldRunner struct {
+	swap bool // the swap controller is registered on the instrumented instance
 	w   *world.W
 	a   actors
 	cdc interface {
@@ -836,7 +838,7 @@ func (wr *worldRunner) caseCtx() sdk.Context {
 			}
 		}
 	}
-	if wr.w.InstOnly {
+	if wr.swap {
 		for _, d := range wr.w.Denoms {
 			if err := wr.w.S.Mint(ctx, PoolAddr(), sdk.NewCoins(sdk.NewCoin(d, math.NewInt(9_000_000_000_000)))); err != nil {
 				panic(err)
@@ -906,29 +908,38 @@ func (wr *worldRunner) coqHeader(before world.Snapshot, strsB, strsI []string, o
 		cq.List(bals), cq.List(sup), st.Coq(), cq.List(ops))
 }
 
-// memoTerm gives the model's view of the memo: the payload the harness built when there is one
-// (so that the decoder is not trusted to tell the model what it decoded), otherwise what the
-// real decoder returned.
+// memoTerm gives the model the memo as a document: the model decodes it with its own decoder
+// (Model/Json.v), so the real parser is not trusted to tell the model what it decoded. The parsed
+// payload is still returned (its strings feed the bech32 table) and, for payloads the harness built,
+// the real decoder is compared with the binary round trip of what was encoded.
 func (wr *worldRunner) memoTerm(spec *paySpec, ics *world.ICS20) (term string, pl *core.Payload, note string) {
 	parsedTerm, parsed := wr.w.MemoCoq(ics.Memo)
+	pl = parsed
 	if spec != nil && spec.rawMem == nil {
 		if built, _, ok := spec.build(wr.cdc); ok {
-			// what the binary Any round trip of the decoder does to the object graph (DESIGN 4.1),
-			// obtained with the binary codec, not the JSON decoder
-			norm, ok := wr.normalise(built)
-			if !ok {
-				return parsedTerm, parsed, ""
+			if norm, ok := wr.normalise(built); ok {
+				if "(Ok "+world.PayloadCoq(norm)+")" != parsedTerm {
+					note = "decoder disagrees with the payload that was encoded"
+				}
+				pl = norm
 			}
-			built = norm
-			want := "(Ok " + world.PayloadCoq(built) + ")"
-			if want != parsedTerm {
-				note = "decoder disagrees with the payload that was encoded"
-			}
-			return want, built, note
 		}
 	}
-	return parsedTerm, parsed, ""
+	tree, err := scanJSON(ics.Memo)
+	if err != nil {
+		return `(Err "memo is not JSON")`, pl, note
+	}
+	var strs, nonCanon []string
+	tree.strings(&strs)
+	for _, s := range strs {
+		if !canonDecimal.MatchString(s) && len(s) <= 400 {
+			nonCanon = append(nonCanon, s)
+		}
+	}
+	return "(jmemo " + world.IntTable(nonCanon) + " " + tree.coq() + ")", pl, note
 }
+
+var canonDecimal = regexp.MustCompile(`^-?(0|[1-9][0-9]*)$`)
 
 func (wr *worldRunner) normalise(pl *core.Payload) (out *core.Payload, ok bool) {
 	defer func() {
